@@ -77,3 +77,27 @@ Definition multi_pQ (steps : list (list bool)) : Q :=
   fold_left (fun p inds => fold_left emaQ inds p) steps 0%Q.
 Definition chain_p_q (inds : list (Z * Z)) : list Z := qout (chain_pQ (map (fun fa => (zb (fst fa), zb (snd fa))) inds)).
 Definition multi_p_q (steps : list (list Z)) : list Z := qout (multi_pQ (map (map zb) steps)).
+
+(* ---- ChainTracker::step / stats for one parameter, bit-exact in binary32 (only IEEE basic operations):
+     n += 1;  mean = (mean * (n - 1) + x) / n;  mean_sq = x*x if n = 1 else (mean_sq * (n - 1) + x*x) / n
+     sm2 = (mean_sq - mean*mean) * n / (n - 1)
+   x is the state already converted to f32 ---- *)
+Definition cnt32 (n : nat) : binary32 :=
+  Binary.binary_normalize 24 128 prec32 emax32 mode_NE (Z.of_nat n) 0 false.
+Definition trk32_step (st : nat * binary32 * binary32) (x : binary32) : nat * binary32 * binary32 :=
+  let '(n0, mean, msq) := st in
+  let n := S n0 in
+  let nf := cnt32 n in
+  let nm1 := b32_minus mode_NE nf f32_one in
+  let mean' := b32_div mode_NE (b32_plus mode_NE (b32_mult mode_NE mean nm1) x) nf in
+  let xx := b32_mult mode_NE x x in
+  let msq' := if Nat.eqb n 1 then xx else b32_div mode_NE (b32_plus mode_NE (b32_mult mode_NE msq nm1) xx) nf in
+  (n, mean', msq').
+Definition trk32_sm2 (st : nat * binary32 * binary32) : binary32 :=
+  let '(n, mean, msq) := st in
+  let nf := cnt32 n in
+  b32_div mode_NE (b32_mult mode_NE (b32_minus mode_NE msq (b32_mult mode_NE mean mean)) nf) (b32_minus mode_NE nf f32_one).
+(* one parameter column of one chain (f32 bit patterns): [mean bits; sm2 bits] *)
+Definition trk32_eval (xs : list Z) : list Z :=
+  let st := fold_left trk32_step (map b32_of_bits xs) (O, f32_zero, f32_zero) in
+  [bits_of_b32 (snd (fst st)); bits_of_b32 (trk32_sm2 st)].
